@@ -43,9 +43,17 @@ func agreeDirect(e *env) error {
 		if t%2 == 1 {
 			pb, pe = 3+e.rng.Intn(4), 6+e.rng.Intn(6)
 		}
+		// every fourth log: a date format with a time of day and several records per calendar day
+		withTime := t%4 == 2
 		for d := 0; d < 1+e.rng.Intn(6); d++ {
 			date += 1 + e.rng.Intn(2)
 			ds := fmt.Sprintf("2021/09/%02d", date)
+			if withTime {
+				if d%2 == 1 {
+					date-- // the same calendar day again, later in the day
+				}
+				ds = fmt.Sprintf("2021/09/%02d %02d:%02d", date, (7*d)%24, (13*d)%60)
+			}
 			inPeriod := date >= pb && date <= pe
 			if inPeriod {
 				dates = append(dates, ds)
@@ -64,7 +72,12 @@ func agreeDirect(e *env) error {
 		}
 		x := &cmpCtx{e: e, c: nil, w: &world{names: names, uq: 1, ua: 1}, book: bk.String(), log: lg.String()}
 		md := []string{"--maxdepth", fmt.Sprint(g.N)}
-		if pb > 0 {
+		if withTime {
+			md = append(md, "--date-format", "2006/01/02 15:04")
+			if pb > 0 {
+				md = append(md, "-b", fmt.Sprintf("2021/09/%02d 00:00", pb), "-e", fmt.Sprintf("2021/09/%02d 23:59", pe))
+			}
+		} else if pb > 0 {
 			md = append(md, "-b", fmt.Sprintf("2021/09/%02d", pb), "-e", fmt.Sprintf("2021/09/%02d", pe))
 		}
 		run := func(args ...string) (string, bool) {
@@ -158,11 +171,15 @@ func agreeDirect(e *env) error {
 			if i >= 2 {
 				break
 			}
-			so, ok := run("--no-color", "summary", ds)
+			arg := ds
+			if withTime {
+				arg = ds[:10] + " 00:00"
+			}
+			so, ok := run("--no-color", "summary", arg)
 			sd, err := parseSummary(so)
 			var want []regDay
 			for _, d := range days {
-				if d.Date == ds {
+				if d.Date == ds || (withTime && len(d.Date) >= 10 && d.Date[:10] == ds[:10]) {
 					want = append(want, d)
 				}
 			}
